@@ -155,6 +155,36 @@ def check_variant(ctx, k, kind, bound):
         ctx.inconclusive.append("%s: verifier never reached" % k)
 
 
+def check_narrow(ctx, k, abits):
+    """B32W: the guest integer is wider than the application's; the value delivered to the verifier must be one the
+    sandbox actually stored and that passed the range check, even if the cell changes between rlbox's reads"""
+    adversarial(ctx)
+    base = ctx.sandbox_base(32)
+    p = ctx.sym("p", 64)
+    ctx.assume(z3.UGE(p, base), z3.ULE(p - base, BV(SIZE - 8, 64)))
+    paths = ctx.run(k, [base, p])
+    nver = 0
+    for q in paths:
+        if q.status != "ret":
+            continue
+        lg = [e for e in (q.user.get("log") or []) if e[0] == 5]
+        if not lg:
+            continue
+        nver += 1
+        v = lg[0][2] if not isinstance(lg[0][2], int) else BV(lg[0][2], 64)
+        v = z3.Extract(abits - 1, 0, v)
+        adv = q.user.get("adv") or []
+        ctx.require(q, z3.Or(*[val == z3.SignExt(val.size() - abits, v) for (a, n_, val) in adv]) if adv else z3.BoolVal(False),
+                    "the narrowed value handed to the verifier equals a value fetched from the cell (so it fits the application type); "
+                    "a value assembled from different fetches for the range check and for the copy does not")
+        if not no_read_after_verifier(ctx, q):
+            ctx.fail(q, "sandbox memory is read again after the verifier was entered (check/use window)")
+    if nver == 0:
+        ctx.inconclusive.append("%s: no path reached the verifier" % k)
+    ctx.only(paths, "ret", "abort")
+    ctx.expect(paths, ret=1, abort=1)
+
+
 VARIANTS = [("k_cav_vol_int", "val"), ("k_cav_vol_long", "val"), ("k_cav_ptr_int", "ptr"), ("k_cav_volptr_long", "ptr"), ("k_cav_struct", "struct"),
             ("k_cav_arr", "arr"), ("k_cavr", "range"), ("k_cavs_unique", "string_u"), ("k_cavs_string", "string_s"), ("k_deny_copy", "deny"),
             ("k_cavs_vol_unique", "string_u"), ("k_cavs_vol_string", "string_s"), ("k_cav_arr2d", "arr"), ("k_cavba_vol", "bufaddr"), ("k_cavr_vol", "range")]
@@ -189,4 +219,7 @@ def jobs(tier, seed):
         b = sb if kind.startswith("string") else rb
         out.append(Job("C09_" + k, src, [dict(name="adversarial " + k, fn=check_variant, kw=dict(k=k, kind=kind, bound=b), unwind=40),
                                          dict(name="sequential " + k, fn=check_seq, kw=dict(k=k, kind=kind), unwind=40)], flags=flags))
+    wsrc = '#include "verif_sandbox.hpp"\nusing S = B32W;\n#include "C09_kernels.inc"\n'
+    out.append(Job("C09_B32W_narrow", wsrc, [dict(name="adversarial narrowing k_cav_vol_int (64-bit guest int)", fn=check_narrow, kw=dict(k="k_cav_vol_int", abits=32), unwind=40)],
+                   flags=flags, native=False))
     return out
